@@ -63,6 +63,25 @@ YdSend(fr) == HexN(fr.id, 8, TRUE) \o <<SP>> \o JoinHex(fr.data, SP, TRUE) \o <<
 YdLineOK(p) == /\ Len(p) >= 2 /\ p[Len(p) - 1] = CR /\ p[Len(p)] = LF
                /\ \A k \in 1..(Len(p) - 2) : p[k] # CR /\ p[k] # LF
 
+\* reading such a line back (decode_yacht_devices_string): blank-separated tokens, hexadecimal numbers
+HexVal(c) == IF c >= 48 /\ c <= 57 THEN c - 48 ELSE IF c >= 65 /\ c <= 70 THEN c - 55
+             ELSE IF c >= 97 /\ c <= 102 THEN c - 87 ELSE -1
+IsHex(t) == t # <<>> /\ \A k \in 1..Len(t) : HexVal(t[k]) >= 0
+RECURSIVE HexNum(_)
+HexNum(t) == IF t = <<>> THEN 0 ELSE HexNum(SubSeq(t, 1, Len(t) - 1)) * 16 + HexVal(t[Len(t)])
+Blank(c) == c \in {SP, CR, LF, 9}
+RECURSIVE Tokens(_)
+Tokens(line) ==                       \* maximal runs of non-blank bytes
+  IF line = <<>> THEN <<>>
+  ELSE IF Blank(line[1]) THEN Tokens(Tail(line))
+  ELSE LET ends == {k \in 1..Len(line) : Blank(line[k])}
+           e == IF ends = {} THEN Len(line) + 1 ELSE CHOOSE x \in ends : \A y \in ends : x <= y
+       IN <<SubSeq(line, 1, e - 1)>> \o Tokens(SubSeq(line, e, Len(line)))
+YdValid(line) == LET t == Tokens(line) IN
+                   /\ Len(t) >= 4 /\ t[2] \in {<<82>>, <<84>>}              \* "R" or "T"
+                   /\ IsHex(t[3]) /\ Len(t[3]) <= 8 /\ \A k \in 4..Len(t) : IsHex(t[k]) /\ Len(t[k]) <= 2
+YdParse(line) == LET t == Tokens(line) IN [id |-> HexNum(t[3]), data |-> [k \in 1..(Len(t) - 3) |-> HexNum(t[k + 3])]]
+
 \* Actisense N2K ASCII (whole message): "A173321.107 23FF7 1F513 <payload hex>"
 RECURSIVE HexCat(_, _)
 HexCat(data, upper) == IF data = <<>> THEN <<>> ELSE Hex2(data[1], upper) \o HexCat(Tail(data), upper)
